@@ -13,11 +13,12 @@
   Not covered here (see DESIGN.md "Partial because"): the C memory model and
   the conformance of the binary to the footprints (ThreadSanitizer campaign of
   checks/C12.py, role check of checks/w14_race.py).  For the expansion
-  scheduler (section "Expansion scheduler" below) additionally: the tie
-  `expand_step_annotated` only shows that every model transition is the locked
-  part of a section in progress (not that every changed field is in the
-  footprint), and the identity of an output buffer is cut at its hand-over to
-  `output_q` (see `expand_owner_unique`).
+  scheduler (section "Expansion scheduler" below) additionally: the identity of
+  an output buffer is cut at its hand-over to `output_q` (see
+  `expand_owner_unique`).  The tie `expand_step_annotated` (every model
+  transition is the locked part of a section in progress AND every shared
+  variable it changes is written in that section's footprint) is full since
+  Lemmas/Race/SchedDTie.lean.
 -/
 import LbzVerif.Lemmas.Race.Footprint
 import LbzVerif.Lemmas.Race.Tie
@@ -26,6 +27,7 @@ import LbzVerif.Lemmas.Race.Witness
 import LbzVerif.Lemmas.Race.SchedDProt
 import LbzVerif.Lemmas.Race.SchedDRelease
 import LbzVerif.Lemmas.Race.SchedDWitness
+import LbzVerif.Lemmas.Race.SchedDTie
 import LbzVerif.Lemmas.SchedD.InSlots
 
 namespace LbzVerif.Props.C12
@@ -653,6 +655,37 @@ theorem expand_step_annotated_partial {c : Model.SchedD.Cfg} {s s' : Model.Sched
       · simp at h
 
 example : (Model.SchedD.step Lemmas.SchedD.cfgF4 D.wD (.scanEnd 2 1)).isSome = true := by
+  decide +kernel
+
+theorem expandSecOf_eq (s : Model.SchedD.State) (l : Model.SchedD.Label) :
+    expandSecOf s l = D.secOf s l := by
+  cases l <;> rfl
+
+/-- **expand_step_annotated** (tie between model and annotation, decompression;
+    the counterpart of `step_annotated`): every transition of
+    `Model.SchedD.step` is the locked part of a section in progress, and each
+    shared variable of the model state it changes (`eof`, `request_close`,
+    `in_slots`, `scan_q`, `retr_q`, `emit_q`, `reord_q`, `order_q`, `unord_q`,
+    `parse_token`, `parsing_done`, `parser_bs`, `tail_offs`, `head_offs`,
+    `work_units`, `out_slots`, `output_q`) is written in that section's
+    footprint.  Not shared variables, hence not in `Covers`: the per-thread
+    program counters (`rph`, `pphase`, `busy`) and the history / ghost fields
+    (`nread`, `written`, `porig`, `gnext`, `taint`, `failed`). -/
+theorem expand_step_annotated {c : Model.SchedD.Cfg} {s s' : Model.SchedD.State}
+    {l : Model.SchedD.Label} (h : Model.SchedD.step c s l = some s') :
+    D.inProg c s (expandSecOf s l) ∧ D.Covers s s' (D.fp c s (expandSecOf s l)) := by
+  rw [expandSecOf_eq]; exact D.step_annotated h
+
+/-- non-vacuous: the witness transition really changes shared variables
+    (`retr_q`, `scan_q`), the footprint of its section contains the
+    corresponding writes, and it does not simply write everything -/
+example :
+    ((Model.SchedD.step Lemmas.SchedD.cfgF4 D.wD (.scanEnd 2 1)).map
+        (fun t => (t.retrQ.length, t.scanQ))) = some (1, [3, 4]) ∧
+    (D.wD.retrQ.length, D.wD.scanQ) = (0, [4]) ∧
+    D.writesVar (D.fp Lemmas.SchedD.cfgF4 D.wD (.scanEnd 2 1)) .retrQ = true ∧
+    D.writesVar (D.fp Lemmas.SchedD.cfgF4 D.wD (.scanEnd 2 1)) .scanQ = true ∧
+    D.writesVar (D.fp Lemmas.SchedD.cfgF4 D.wD (.scanEnd 2 1)) .eof = false := by
   decide +kernel
 
 end LbzVerif.Props.C12
